@@ -1033,6 +1033,11 @@ class Paths:
                             val = continues(nx) if tv else ("const", False)
                         cases.append((f2 + conj, e2, val))
             return cases
+        if len(args) == 2 and "{closure#" in name and is_closure(strip_refs(raw(0))):
+            # a closure bound to a local and called directly: rustc resolves the call to the closure's own body
+            tup = A(1)
+            if tup[0] == "agg" and tup[1] == "tuple":
+                return self._apply_callable(strip_refs(raw(0)), list(tup[2]), depth)
         if name in ("call", "call_mut", "call_once") and "ops::function" in path and len(args) == 2:
             tup = A(1)
             cargs = list(tup[2]) if tup[0] == "agg" and tup[1] == "tuple" else None
